@@ -227,6 +227,12 @@ Section Norm.
   Lemma gbin_scale k R lam sig g i : gbin E sqrt2 (k * R) lam sig g i == k * gbin E sqrt2 R lam sig g i.
   Proof. unfold gbin. destruct (g_inrange g lam sig i); unfold Qdiv; ring. Qed.
 
+  Lemma gbin_ext R1 R2 lam sig g i : R1 == R2 -> gbin E sqrt2 R1 lam sig g i == gbin E sqrt2 R2 lam sig g i.
+  Proof. intros H. unfold gbin. destruct (g_inrange g lam sig i); [rewrite H|]; reflexivity. Qed.
+
+  Lemma lbin_ext R1 R2 lam w g i : R1 == R2 -> lbin I R1 lam w g i == lbin I R2 lam w g i.
+  Proof. intros H. unfold lbin. destruct (l_inrange g lam w i); [rewrite H|]; reflexivity. Qed.
+
   Lemma gbin_zero lam sig g i : gbin E sqrt2 0 lam sig g i == 0.
   Proof. unfold gbin. destruct (g_inrange g lam sig i); unfold Qdiv; ring. Qed.
 
